@@ -98,6 +98,11 @@ def system(R, rng, tier):
             stem = rng.choice(["mod", "a b", "x&y", "q'uote", "lt<gt>", "ünï", "semi;colon", "com,ma", "hash#", "pct%41", "plus+", "brace{msg}"])
             fn = "%s_%d.py" % (stem, k)
             pw = gen_text(rng, "oneline")
+            if it == 0 and k == 0:
+                pw = "first\nsecond"       # the witness of the known finding about the custom template, in every run
+            elif rng.random() < 0.35:
+                # line ends inside a quoted literal (escaped in the source, real characters in the finding's message)
+                pw = pw[:len(pw) // 2] + rng.choice(["\r", "\n", "\r\n", "x\ry", "\x85"]) + pw[len(pw) // 2:]
             src = ("import subprocess\npassword = %s\nsubprocess.Popen(cmd,\n    stdin=None,\n    shell=True)\nassert password\n" % py_literal(pw))
             if rng.random() < 0.5:
                 # characters str.splitlines() treats as line ends but files do not: a page-break line and separators inside
@@ -144,14 +149,17 @@ def system(R, rng, tier):
             if r["exception"]:
                 R.violations.append({"what": "format %s: no report (%s)" % (fmt, r["exception"]), "input": inp, "observed": (r["traceback"] or "")[-300:], "signature": None})
                 continue
-            text = open(out, encoding="utf-8", errors="surrogateescape").read()
+            # newline="": the bytes as written (a CR inside a quoted CSV field or an XML attribute is data, not a line end)
+            text = open(out, encoding="utf-8", errors="surrogateescape", newline="").read()
             os.remove(out)
             pr = reports.parse(fmt, text)
             if not pr["wellformed"]:
                 R.violations.append({"what": "format %s: the report is not well-formed (%s)" % (fmt, pr.get("error")), "input": inp, "observed": text[:300], "signature": None})
                 continue
             if len(pr["records"]) != len(J):
-                R.violations.append({"what": "format %s: %d records for %d reported findings" % (fmt, len(pr["records"]), len(J)), "input": inp, "observed": len(pr["records"]), "signature": None})
+                # the custom template writes {msg} as it is, one record per line: a message that holds a line feed cannot be one record
+                sig = "custom-template-writes-line-feed-raw" if fmt == "custom" and len(pr["records"]) == len(J) + sum(r_["text"].count("\n") for r_ in J) else None
+                R.violations.append({"what": "format %s: %d records for %d reported findings" % (fmt, len(pr["records"]), len(J)), "input": inp, "observed": len(pr["records"]), "signature": sig})
                 continue
             if fmt in ("yaml", "csv", "xml"):
                 got = sorted(ident(x) for x in pr["records"])
